@@ -2,20 +2,21 @@
 From PV Require Import Common.Util Gen.StateConsts StateVar.StateModel StateVar.Resolve StateVar.Spec StateVar.StateCheck
   Proofs.StateVarRefine.
 
-(* C16, main statement.  For every host (Python's str()/==) whose str() is idempotent and never None, every table of
-   pyscript function names and entity-service methods, every sequence of script operations (read / capture / assign /
+(* C16, main statement.  For every host (Python's str() / == / hasattr on plain values) whose str() is idempotent and never
+   None, every table of pyscript function names, every sequence of script operations (read / capture / assign /
    attribute-assign / state.set with every argument combination / state.setattr / del / state.delete / state.exist /
    state.getattr / state.names / re-reads of captured snapshots, with arbitrary step-local Python variables) interleaved
-   with external hass.states.async_set / async_remove / service (un)registration, started in any state whose stored
+   with external hass.states.async_set / async_remove / (entity-)service (un)registration / refreshes of the entity-service
+   table (start-up, reload), started in any state whose stored
    values are strings: the Model of state.py + eval.py's dotted-name routing (all deviation switches off) produces the
    same list of outputs (values / exception types seen by the script) and the same final state (state machine incl. the
    last_changed / last_updated / last_reported stamps as logical step times, services, global Python objects, captured
    snapshots with their virtual fields) as the documented rules [run_spec].  [now] is the logical time of the first step. *)
-Theorem C16_refines : forall (H : host) (funcs : list ename) (svcargs : list (ident * ident)),
+Theorem C16_refines : forall (H : host) (funcs : list ename),
   (forall v, h_str H (h_str H v) = h_str H v) -> (forall v, h_str H v <> v_none) ->
   forall (steps : list step) (now : N) (st : mstate), wf_state H st ->
-  run_model {| cf_dev := all_off; cf_host := H; cf_funcs := funcs; cf_svcargs := svcargs |} now st steps
-  = run_spec H funcs svcargs now st steps.
+  run_model {| cf_dev := all_off; cf_host := H; cf_funcs := funcs |} now st steps
+  = run_spec H funcs now st steps.
 Proof. exact run_refines. Qed.
 Print Assumptions C16_refines.
 
@@ -28,8 +29,8 @@ Print Assumptions C16_refines_instance.
 
 (* the str() table the harness actually ships satisfies the two host hypotheses whenever [strtab_ok] evaluates to true
    (every correspondence shard contains [strtab_ok <shipped table> = true] proved by eq_refl) *)
-Theorem C16_host_tables : forall t et vt vf eqt, strtab_ok t = true ->
-  let H := mk_host t eqt et vt vf in
+Theorem C16_host_tables : forall t et vt vf eqt sa pa, strtab_ok t = true ->
+  let H := mk_host t eqt et vt vf sa pa in
   (forall v, h_str H (h_str H v) = h_str H v) /\ (forall v, h_str H v <> v_none).
 Proof. exact strtab_ok_hyps. Qed.
 Print Assumptions C16_host_tables.
@@ -57,7 +58,7 @@ Theorem C16_priority : forall cf locals st d n,
   (no_pyvar locals st d -> mem_ename (d, n) (cf_funcs cf) || mem_ename (d, n) (ms_svcs st) = true ->
      aeval_dn cf locals st (DAttr (DHead d) n) = EV PFunc) /\
   (no_pyvar locals st d -> mem_ename (d, n) (cf_funcs cf) || mem_ename (d, n) (ms_svcs st) = false ->
-     aeval_dn cf locals st (DAttr (DHead d) n) = of_res (state_get (cf_host cf) (cf_svcargs cf) (ms_ha st) [d; n])).
+     aeval_dn cf locals st (DAttr (DHead d) n) = of_res (state_get (cf_host cf) (ms_svcargs st) (ms_ha st) [d; n])).
 Proof. exact priority. Qed.
 Print Assumptions C16_priority.
 
@@ -79,18 +80,18 @@ Print Assumptions C16_priority_del.
 (* the three open findings: with the switch on (= today's code) the refinement fails on the witness *)
 Theorem C16_refuted_D160 :
   exists steps, wf_state ex_host ex_state /\
-    run_model (ex_cfg (only 160)) 4 ex_state steps <> run_spec ex_host ex_funcs [(1, 13)]%N 4 ex_state steps.
+    run_model (ex_cfg (only 160)) 4 ex_state steps <> run_spec ex_host ex_funcs 4 ex_state steps.
 Proof. exact refuted_D160. Qed.
 Print Assumptions C16_refuted_D160.
 
 Theorem C16_refuted_D161 :
   exists steps, wf_state ex_host ex_state /\
-    run_model (ex_cfg (only 161)) 4 ex_state steps <> run_spec ex_host ex_funcs [(1, 13)]%N 4 ex_state steps.
+    run_model (ex_cfg (only 161)) 4 ex_state steps <> run_spec ex_host ex_funcs 4 ex_state steps.
 Proof. exact refuted_D161. Qed.
 Print Assumptions C16_refuted_D161.
 
 Theorem C16_refuted_D7 :
   exists steps, wf_state ex_host ex_state /\
-    run_model (ex_cfg (only 7)) 4 ex_state steps <> run_spec ex_host ex_funcs [(1, 13)]%N 4 ex_state steps.
+    run_model (ex_cfg (only 7)) 4 ex_state steps <> run_spec ex_host ex_funcs 4 ex_state steps.
 Proof. exact refuted_D7. Qed.
 Print Assumptions C16_refuted_D7.
